@@ -41,6 +41,14 @@ def run(ctx):
         ctx.violation("harness does not build against /repo's working tree",
                       {"theorem_or_correspondence": "correspondence C16 (h16 build)"}, found_input=False)
 
+    chk = None
+    if ctx.thorough and ok_make:
+        chk = vlib.coqchk_lib(ctx, "C16", ["Roundtrip", "Step", "Corr"])
+        ctx.cov["coqchk"] = {"axioms": chk["axioms"], "ok": chk["ok"]}
+        if not chk["ok"]:
+            ctx.violation("coqchk does not accept the compiled C16 library or reports axioms",
+                          {"theorem_or_correspondence": "coqchk -o C16.*", "detail": chk["tail"]}, found_input=False)
+
     # --- decide ---
     for f in oracle_bad[:5]:
         # a concrete machine state on which the real VM does not do what the instruction denotes
